@@ -15,10 +15,13 @@
 package c11
 
 import (
+	"context"
 	"fmt"
 	"math/big"
 	"os"
+	"os/exec"
 	"sort"
+	"strings"
 	"sync"
 	"time"
 
@@ -161,6 +164,9 @@ type roundCase struct {
 	// expectBan / expectTip are sanity expectations of the catalogue author, checked as oracles
 	// only where stated (mustBan: a provably misbehaving peer must be reported)
 	mustBan bool
+	// honest: the peer serves a valid chain without any deviation; it must not be reported, and if
+	// its chain is sufficiently heavier the victim must end the round on it
+	honest  bool
 	sendCap uint64 // victim's WithMaxSendBlocks (0 = default 100): the request split size
 }
 
@@ -213,6 +219,17 @@ func (rc *roundCase) run(ip string) *vh.Case {
 	if out.timeout {
 		c.Oracle("sync-round-stalled", "the victim's sync round with the scripted peer did not end within 20 s (%s)", op)
 	}
+	if rc.honest {
+		if out.dec == "ban" || victim.Store.BannedAddr(bz.LocalAddr) {
+			c.Oracle("honest-peer-banned:sync-round", "a peer that served a valid chain without any deviation was reported for banning: %v (%s)", victim.Store.Bans(), strings.Join(rc.tags, " "))
+		}
+		if n := len(rc.view.States); n > 0 {
+			pt, vt := rc.view.States[n-1], victim.CM.TipState()
+			if pt.SufficientlyHeavierThan(vt) && victim.CM.Tip() != pt.Index {
+				c.Oracle("stalled-below-honest-chain", "one sync round with an honest peer on a sufficiently heavier valid chain (tip %v) left the victim on %v (decision %s)", pt.Index, victim.CM.Tip(), out.dec)
+			}
+		}
+	}
 	if rc.mustBan && out.dec != "ban" {
 		c.Oracle("misbehaviour-not-banned:"+rc.tags[0], "peer delivered a provably invalid block but was not reported (decision %s)", out.dec)
 	}
@@ -253,4 +270,56 @@ func trunc(s string, n int) string {
 		return s[:n] + "…"
 	}
 	return s
+}
+
+// isolate runs a case in a child process of the harness: a corruption that makes the node panic
+// in a goroutine without recover takes the whole process down, which must be an observation
+// ("process-crashed") with the case as failing input, not the end of the run.
+func isolate(r *vh.Run, j job) job {
+	if r == nil || os.Getenv("VERIF_C11_CHILD") != "" {
+		return j
+	}
+	name := j.name
+	j.run = func(ip string) *vh.Case {
+		c := &vh.Case{Name: name, Nontrivial: true, Key: name, Tags: []string{"isolated:child-process"}}
+		dir, err := os.MkdirTemp("", "c11child")
+		if err != nil {
+			c.Oracle("harness-isolate", "%v", err)
+			return c
+		}
+		defer os.RemoveAll(dir)
+		ctx, cancel := context.WithTimeout(context.Background(), 150*time.Second)
+		defer cancel()
+		cmd := exec.CommandContext(ctx, os.Args[0], "C11", "-tier", r.Tier, "-seed", fmt.Sprint(r.Seed), "-drv", r.Drv, "-out", dir, "-only", name)
+		cmd.Env = append(os.Environ(), "VERIF_C11_CHILD=1")
+		out, _ := cmd.CombinedOutput()
+		code := cmd.ProcessState.ExitCode()
+		c.Op("isolated "+name, fmt.Sprintf("exit %d", code))
+		text := string(out)
+		switch code {
+		case 0:
+		case 1:
+			for _, l := range strings.Split(text, "\n") {
+				t := strings.TrimSpace(l)
+				for _, kind := range []string{"oracle", "corr"} {
+					if strings.HasPrefix(t, kind+"[") {
+						if i := strings.Index(t, "]"); i > 0 {
+							c.Fail(kind, t[len(kind)+1:i], t[i+1:])
+						}
+					}
+				}
+			}
+			if len(c.Fails) == 0 {
+				c.Oracle("child-failed", "%s", trunc(text, 600))
+			}
+		default:
+			msg := text
+			if i := strings.Index(text, "panic:"); i >= 0 {
+				msg = text[i:]
+			}
+			c.Oracle("process-crashed", "the node process died (exit %d) while running this case: %s", code, trunc(msg, 900))
+		}
+		return c
+	}
+	return j
 }
